@@ -229,6 +229,11 @@ theorem undeclared_tag_rejected {d : BDir} {n : Bytes} (hd : d ∈ flatF f) (hk 
   obtain ⟨d', ⟨⟨t', ht', rfl⟩, hk'⟩, rfl⟩ := ht
   exact hno t' ht' (by simpa using hk')
 
+/-- the invariants behind the duplicate checks: type names, server names and interaction ids never repeat -/
+theorem names_nodup (h : compile banned f = .ok c) :
+    (c.types.map (·.name)).Nodup ∧ (c.servers.map (·.name)).Nodup ∧ (c.inters.map (·.iid)).Nodup :=
+  nodup_compile h
+
 /-! ## concrete checks: the hypotheses are satisfiable -/
 
 instance {ε α : Type} [DecidableEq ε] [DecidableEq α] : DecidableEq (Except ε α) := fun a b =>
@@ -312,6 +317,14 @@ example : (compile [] (exF ++ [.node exNewTag []])).toOption.map (fun c => c.tag
     some [([64, 112, 101, 116, 115], true), ([64, 122, 111, 111], true), ([64, 99, 97, 116, 115], false), ([64, 114, 112, 99], false)] := by
   rw [add_tag_local exF_ok exNewTag rfl (by decide) (by decide +kernel) (by decide) (by decide)]
   decide +kernel
+
+/-- why `add_tag_local` needs `hfresh` for automatic tags too: appending `TAG @cats` to `exF`, whose catalog has
+the automatic tag `@cats` (of `POST /cats`), adds no entry — the tag `@cats` becomes the declared one, takes the
+declared position and keeps the interaction -/
+def exClashTag : BDir := { kind := .TAG, named := [("TagName", [64, 99, 97, 116, 115])], annot := [67, 97, 116, 115] }
+example : (compile [] (exF ++ [.node exClashTag []])).toOption.map
+      (fun c => c.tags.map (fun t => (t.name, t.declared, t.http.length))) =
+    some [([64, 112, 101, 116, 115], true, 1), ([64, 99, 97, 116, 115], true, 1), ([64, 114, 112, 99], false, 0)] := by decide +kernel
 
 /-- a second `TYPE @cat` is rejected -/
 def exDup : BDir := { kind := .Type, named := [("Name", [64, 99, 97, 116])], annot := [97, 103, 97, 105, 110], body := some [123, 125] }
